@@ -105,6 +105,15 @@ def run_property(prop: str, tier: str, seed: int, update_baseline: bool = False)
     os.environ["VERIF_TIER"] = tier
     P, R = load_all()
     keys = list(R.groups.get(prop, []))
+    for k, c in R.contracts.items():
+        if c.trusted or k in keys:
+            continue
+        clause_tags = {t for cl in c.requires + c.ensures for t in cl.tags}
+        clause_tags |= {t for cls in c.raises.values() for cl in cls for t in cl.tags}
+        clause_tags |= {t for cls in c.yield_inv.values() for cl in cls for t in cl.tags}
+        if prop in c.tags or prop in clause_tags:
+            keys.append(k)
+    keys = [k for k in keys if not R.contracts[k].trusted]
     if not keys:
         print(f"checker error: property {prop} has no functions under contract", file=sys.stderr)
         return 3
@@ -155,7 +164,20 @@ def run_property(prop: str, tier: str, seed: int, update_baseline: bool = False)
             errors.append(f"{key}: obligation set differs from the recorded baseline for identical source "
                           f"({len(base['obligations'])} recorded, {len(ids)} generated)")
         new_baseline[key] = {"sha256": rec.get("sha256"), "obligations": sorted(ids)}
+        # every outcome the contract declares must be reachable on at least one live path (guards against contracts
+        # that "hold" because a callee contract or an assumption silently killed the paths)
+        c_decl = R.contracts[key]
+        live = {o["id"].split("exit-live:")[1].split("#")[0] for o in rec["obligations"] if "exit-live:" in o["id"] and o["status"] == "discharged"}
+        dead_only = {o["id"].split("exit-live:")[1].split("#")[0] for o in rec["obligations"] if "exit-live:" in o["id"]} - live
+        if (c_decl.ensures and "normal" not in live and "$noreturn" not in c_decl.env) and src_same:
+            errors.append(f"{key}: no live normal exit although the contract has postconditions (vacuous proof)")
+        for dk in sorted(dead_only):
+            if src_same:
+                errors.append(f"{key}: every path to outcome {dk} is infeasible although it is generated (vacuous proof)")
         for o in rec["obligations"]:
+            if o["status"] == "dead-exit":
+                o["status"] = "discharged"
+                o["backend"] = "z3"
             total += 1
             solver_time += o["time_s"]
             if o["status"] in ("discharged", "trivial"):
@@ -196,6 +218,21 @@ def run_property(prop: str, tier: str, seed: int, update_baseline: bool = False)
             print(f"VIOLATION property={prop} replay={rp}{suffix}")
             print(f"  failed obligation: {v['id']} [{v['status']}]")
         exit_code = 1
+    if undecided and not violations:
+        # the contract no longer fits a modified function: fall back to the bounded search on the real code (DESIGN §2.8)
+        from .replay import find_witness
+
+        wit = find_witness(prop, {})
+        if wit and wit.get("reproduced"):
+            rp = os.path.join(VERIF, "replays", f"{prop}-bounded-{hashlib.sha1(json.dumps(wit, sort_keys=True).encode()).hexdigest()[:10]}.json")
+            with open(rp, "w") as fh:
+                json.dump({"property": prop, "failed_obligation": "none generated: " + "; ".join(undecided)[:600], "status": "bounded-search",
+                           "solver_output": "the contract could not be applied to the modified function; the bounded driver found a failing input on the real code",
+                           "witness": wit}, fh, indent=1)
+            print(f"VIOLATION property={prop} replay={rp}")
+            print("  (found by the bounded driver; no obligation could be generated for: " + "; ".join(u.split(':')[1] if ':' in u else u for u in undecided)[:300] + ")")
+            exit_code = 1
+            violations.append({"id": "bounded-search", "function": "", "status": "bounded-search", "detail": "", "kind": "bounded"})
     if errors:
         for e in errors:
             print("CHECKER-ERROR:", e, file=sys.stderr)
